@@ -10,8 +10,9 @@ import time
 from pathlib import Path
 
 VERIF = Path(__file__).resolve().parent.parent
-WORK = VERIF / "work"
-EVIDENCE = VERIF / "evidence"
+# (the mutation campaign relocates scratch and evidence so that runs against scratch copies can go in parallel)
+WORK = Path(os.environ.get("VERIF_WORK_DIR", VERIF / "work"))
+EVIDENCE = Path(os.environ.get("VERIF_EVIDENCE_DIR", VERIF / "evidence"))
 FINDINGS_FILE = VERIF / "known_findings.json"
 
 # The implementation under test: /repo's working tree unless SPECKIT_SRC points to a scratch copy
